@@ -7,7 +7,7 @@ from runner import Case, CaseSet
 from props.c02 import py_delta
 
 ID = 'C03'
-OBLIGATIONS = ['Props/C03.v', 'Props/Tie/charge_tie.v', 'Props/Tie/delta_formulas_tie.v', 'Props/Tie/deltamax_tie.v', 'Props/Tie/minipy_forward_c03_tie.v']
+OBLIGATIONS = ['Props/C03.v', 'Props/Tie/charge_tie.v', 'Props/Tie/delta_formulas_tie.v', 'Props/Tie/deltamax_tie.v', 'Props/Tie/minipy_forward_c03_tie.v', 'Props/Tie/minipy_permutant_tie.v']
 RULE = ('every composition (n+,n-,n0) with N <= B (quick 18, thorough 28) in 2 random arrangements+spellings, random '
         'compositions up to N=120 (regime 4 kept <= 60), each through get_deltaMax() and get_deltaMax(True); '
         'non-trivial = distinct sequence with a charged residue and N >= 6')
@@ -18,7 +18,7 @@ ASSUMPTIONS = ['float comparisons inside the search (dmax < delta) may break exa
 LEVEL_TEXT = ('Proof: delta-max of the model is the maximum of delta over the documented candidate family, is attained, '
               'depends only on the composition, and the returned permutant is a rearrangement of the input with the '
               'maximising pattern (all unbounded theorems). Tie: regime guards/loop bounds extracted from deltaMax are proved '
-              'equal to the family\'s; get_deltaMax()/get_deltaMax(True) compared in Coq for every small composition.')
+              'equal to the family\'s; get_deltaMax()/get_deltaMax(True) compared in Coq for every small composition. Whole-function tie (minipy_permutant_tie.v): __permutant_from_reduced_seq, translated into a Core/MiniPy.v term on every run, returns exactly Model.Delta.permutant for EVERY parent sequence and arrangement that does not over-draw a class.')
 LEVEL_NOTE = 'Closed under the global context. Trusts py2coq extraction of the deltaMax regime structure, harness, tolerance 1e-9.'
 TECHNIQUE = 'Coq proof (fold/maximum lemmas, permutation of refill) + translator tie of regime constants + in-Coq correspondence'
 
